@@ -210,10 +210,13 @@ def q_ints(a, b, ctx):
     import finam as fm
     from finam.data import tools
 
-    if not hu.compatible(a, b) or not (_decimal(a) and _decimal(b)):
+    if not hu.compatible(a, b) or hu.CATALOGUE[a][2] != 0.0 or hu.CATALOGUE[b][2] != 0.0:
         return
+    # every compatible pair without offset (since fix 8f2d363 integer payloads are converted as floats, so also the
+    # pairs for which pint keeps a whole-number factor: week/day/h/min -> s, ha -> m2). int64 carries values whose
+    # product with such a factor leaves the 64-bit range.
     for dt in (np.int16, np.int32, np.int64):
-        x = np.array([0, 1, -3, 100, 12345], dtype=dt)
+        x = np.array([0, 1, -3, 100, 12345] + ([2 * 10**13, -(10**15)] if dt is np.int64 else []), dtype=dt)
         exp = x.astype(float) if hu.equivalent(a, b) else hu.convert(x.astype(float), a, b)
         try:
             r = tools.to_units(tools.UNITS.Quantity(x.copy(), a), b)
